@@ -898,7 +898,8 @@ func (fc *FnCtx) instrMods(ins ssa.Instruction, li *loopInfo, depth int) {
 			// []byte(string) allocates
 		}
 	case *ssa.Defer:
-		li.modAll = true
+		// a deferred call writes what the call writes (it runs before the enclosing function returns)
+		fc.callMods(x.Common(), li, depth)
 	case ssa.CallInstruction:
 		fc.callMods(x.Common(), li, depth)
 	}
